@@ -14,7 +14,7 @@ from . import spec_sim as SS
 
 PROP = 'C11'
 LEVEL = 'proof'
-SHAPES = dict(quick=dict(n=[1, 2, 3], extra=[(4, (1, 3)), (4, (0, 2)), (5, (1, 3))]), thorough=dict(n=[1, 2, 3, 4], extra=[(5, (1, 3)), (5, (0, 2, 4)), (5, (2,)), (6, (1, 3, 5))]))
+SHAPES = dict(quick=dict(n=[1, 2, 3, 4], extra=[(5, (1, 3)), (5, (0, 3, 4))]), thorough=dict(n=[1, 2, 3, 4, 5], extra=[(6, (1, 3, 5)), (6, (0, 3, 4)), (6, (2,))]))
 TRUSTED_BASE = [
     'CPython + NumPy reshape/indexing machinery on object arrays == on typed arrays up to element arithmetic',
     'floats are reals; sqrt of a symbolic radicand is a fresh non-negative symbol with s^2 = radicand (sound over the reals)',
